@@ -2,8 +2,10 @@
 // Output: result, warning flag (the "Iterations exceed the maximum" message on stdout), number of evaluations of
 // the objective function and their abscissae in call order (op both: for both orders of the ends; op seq: for each of
 // the k requests of a history served by one process).  std::exit inside the library is reported by the runner.
+// Ops sgn x / sgn2 x y: libphysica::Sign(x) (an int) / libphysica::Sign(x,y) (a double).
 #include "common.hpp"
 #include "libphysica/Numerics.hpp"
+#include "libphysica/Special_Functions.hpp"
 using namespace libphysica;
 static void diag_reset()
 {
@@ -98,6 +100,16 @@ static void handler(vh::Reader& r, vh::Out& o)
 			o.i(warn ? 1 : 0);
 			o.fl(trace);
 		}
+	}
+	else if(op == "sgn")	 // int Sign(double): the end test and Ridder's formula of Find_Root
+	{
+		double x = r.num();
+		o.i(Sign(x));
+	}
+	else if(op == "sgn2")	 // double Sign(double,double): the three re-bracketing tests of Find_Root
+	{
+		double x = r.num(), y = r.num();
+		o.f(Sign(x, y));
 	}
 	else
 		o.w("HARNESSERR unknown_op");
